@@ -672,3 +672,10 @@ def config_defaults(ctx, prog, rule, fields):
             ok = v is not None and v[0] == "agg" and v[1][0] == "adt" and v[1][2] == want
         ctx.ob(rule, "config-default.%s" % f, ok, df.loc(0),
                "PopenConfig::default().%s = %s (must be %s: nothing is requested unless the caller asks)" % (f, M.term_str(v) if v else None, "false" if want == 0 else want))
+
+
+def pipeline_spawner(prog):
+    """the one function of the pipeline builder that starts the stages (contains the Exec::popen call): found by census, not by
+    name, so that extracting the loop out of Pipeline::popen into a helper does not move the anchor"""
+    cands = sorted({f.path for f, _, _ in callers_of(prog, "builder::exec::Exec::popen") if f.path.startswith("builder::pipeline")})
+    return cands[0] if len(cands) == 1 else None
